@@ -199,6 +199,9 @@ func c09Routes() []gReq {
 		{route: "get-object", method: "GET", path: "/aaa/k"},
 		{route: "head-object", method: "HEAD", path: "/aaa/k"},
 		{route: "put-object", method: "PUT", path: "/aaa/k", body: "new-body", header: []kv{{"x-amz-meta-a", "1"}}},
+		// ... announced with Expect: 100-continue (the client waits for the go-ahead or a final answer)
+		{route: "put-object-expect", method: "PUT", path: "/aaa/k", body: "new-body", header: []kv{{"Expect", "100-continue"}}},
+		{route: "upload-part-expect", method: "PUT", path: "/aaa/a", query: []kv{{"uploadId", "$UID"}, {"partNumber", "2"}}, body: "part-two", header: []kv{{"Expect", "100-continue"}}},
 		{route: "copy-object", method: "PUT", path: "/aaa/k2", header: []kv{{"X-Amz-Copy-Source", "/aaa/k"}}},
 		{route: "delete-object", method: "DELETE", path: "/aaa/k"},
 		{route: "get-version", method: "GET", path: "/aaa/k", query: []kv{{"versionId", "$VID"}}},
@@ -277,6 +280,7 @@ func c09Menu() []deviation {
 	add("h:If-None-Match", "$ETAGK", "*", "\"x\"")
 	add("h:If-Modified-Since", "Mon, 02 Jan 2040 15:04:05 GMT", "Mon, 02 Jan 2006 15:04:05 GMT", "garbage")
 	add("h:x-minio-force-delete", "true")
+	add("h:Expect", "100-continue")
 	add("h:x-amz-date", "20000101T000000Z", "garbage", "20200102T030405Z")
 	add("h:Content-Type", "multipart/form-data; boundary=verifboundary", "multipart/form-data", "text/plain")
 	add("h:Host", "aaa.s3.test", "nosuch.s3.test", "s3.test", "a.b.s3.test", "")
@@ -502,7 +506,7 @@ func c09Plans(c *engine.Ctx) []c09Plan {
 // relevant slots for 2-deviation pairs: slots the base request uses plus the routing-relevant ones.
 func relevantSlot(base gReq, slot string) bool {
 	switch slot {
-	case "method", "path", "q:uploadId", "q:versionId", "q:uploads", "q:versions", "q:versioning", "q:delete", "q:location", "len", "body", "h:X-Amz-Copy-Source":
+	case "method", "path", "q:uploadId", "q:versionId", "q:uploads", "q:versions", "q:versioning", "q:delete", "q:location", "len", "body", "h:X-Amz-Copy-Source", "h:Expect":
 		return true
 	}
 	if strings.HasPrefix(slot, "q:") {
@@ -636,6 +640,10 @@ func runC09(c *engine.Ctx) {
 				class = backendClass(jb.plan.cfg.Kind)
 			}
 			report(sig("C09", class, "panic@"+fr), "handler panicked: "+firstLine(resp.Panic))
+			return
+		}
+		if resp.ClosedUnreadBody {
+			report(sig("C09", class, jb.base.route, "closes-unread-body-before-answering"), "the request said Expect: 100-continue and the handler closed its body, unread, before writing any answer ("+resp.Short()+" came afterwards): with net/http that Close waits for the body while the client waits for the answer")
 			return
 		}
 		if hn, hv, bad := badHeader(resp.Header); bad {
